@@ -26,7 +26,7 @@ func (r rapidSource) Int(label string, n int) int      { return rapid.IntRange(0
 // the events a server can send on its own
 var eventKinds = []string{"pong", "ack", "new-session", "bad-msg", "state-info", "all-info", "detailed-info", "new-detailed-info", "future-salts",
 	"bad-salt-unknown", "bad-salt-answered", "rotate",
-	"result-unknown", "result-again", "error-unknown", "update", "updates-too-long", "unknown-ctor", "truncated", "empty-body", "empty-container", "nested-container", "raw-soup", "gzip-damaged", "close",
+	"result-unknown", "result-again", "error-unknown", "update", "updates-too-long", "unknown-ctor", "truncated", "empty-body", "empty-container", "nested-container", "raw-soup", "gzip-damaged", "close", "close-pending",
 	"schema-object", "schema-object", "schema-object",
 	"envelope:badlen", "envelope:evenid", "envelope:flip", "envelope:garbage", "envelope:truncate", "envelope:append", "envelope:rekey", "envelope:reflect",
 	"cut:result-unknown", "cut:pong", "cut:ack", "cut:bad-msg", "cut:state-info", "cut:update", "cut:nested-container", "cut:future-salts"}
@@ -120,6 +120,7 @@ func build(s scen.Source, events []Event) *scen.Scenario {
 		{Op: "await-calls"},
 	}
 	conns := 1
+	pendTag := 100
 	salt := int64(0x0102030405060000)
 	for _, ev := range events {
 		switch ev.Kind {
@@ -135,6 +136,23 @@ func build(s scen.Source, events []Event) *scen.Scenario {
 				conns++
 				steps = append(steps, scen.Step{Op: "close-latest"}, scen.Step{Op: "await-reconnect", N: conns})
 			}
+		case "close-pending":
+			// the connection is closed while a request the server has received is still unanswered; answers belong to the
+			// session, so the server gives it on a later connection: right after the client is back (variant 0), or after it
+			// has closed that connection too (variant 1), or after a close and an answered probe and another close (variant 2)
+			pendTag++
+			steps = append(steps, scen.Step{Op: "call", Calls: []scen.CallSpec{{Caller: pendTag, Reqs: []scen.ReqSpec{{Tag: pendTag, Kind: []string{"object", "vecint", "bool"}[int(ev.Arg>>2)%3]}}}}},
+				scen.Step{Op: "await-requests", N: 1})
+			conns++
+			steps = append(steps, scen.Step{Op: "close"}, scen.Step{Op: "await-reconnect", N: conns}, scen.Step{Op: "probe", Retry: true})
+			for k := int(ev.Arg>>4) % 3; k > 0; k-- {
+				conns++
+				steps = append(steps, scen.Step{Op: "close"}, scen.Step{Op: "await-reconnect", N: conns})
+				if k == 2 {
+					steps = append(steps, scen.Step{Op: "probe", Retry: true})
+				}
+			}
+			steps = append(steps, scen.Step{Op: "probe", Retry: true}, scen.Step{Op: "answer", Container: ev.InContainer, Items: []scen.AnsItem{{Tag: pendTag, Gzip: ev.Gzip}}}, scen.Step{Op: "await-calls"})
 		case "new-session":
 			salt++
 			steps = append(steps, scen.Step{Op: "new-session", Salt: salt})
@@ -177,7 +195,7 @@ func build(s scen.Source, events []Event) *scen.Scenario {
 			}
 			steps = append(steps, scen.Step{Op: "push", Push: p})
 		}
-		steps = append(steps, scen.Step{Op: "probe", Retry: ev.Kind == "close" || ev.Kind == "close-run"})
+		steps = append(steps, scen.Step{Op: "probe", Retry: ev.Kind == "close" || ev.Kind == "close-run" || ev.Kind == "close-pending"})
 	}
 	sc.RPC.Steps = steps
 	return sc
@@ -218,6 +236,14 @@ func judge(sc *scen.Scenario, events []Event, res *scen.Result, runErr error) (s
 		}
 		return "inconclusive", fmt.Errorf("INFRA: unfinished, state inspection inconclusive: %s", res.Stall.LoopAt)
 	}
+	want := map[int]string{}
+	for _, st := range sc.RPC.Steps {
+		for _, cs := range st.Calls {
+			for _, r := range cs.Reqs {
+				want[r.Tag] = scen.Expected(r)
+			}
+		}
+	}
 	for _, c := range res.Calls {
 		if c.Panic != "" {
 			return "violation", fmt.Errorf("a caller panicked: %s", c.Panic)
@@ -227,6 +253,9 @@ func judge(sc *scen.Scenario, events []Event, res *scen.Result, runErr error) (s
 		}
 		if c.Kind == "probe" && c.Value != "true" {
 			return "violation", fmt.Errorf("a probe returned %s instead of its own answer", c.Value)
+		}
+		if w, ok := want[c.Tag]; ok && c.Tag > 100 && c.Value != w {
+			return "violation", fmt.Errorf("the request that was unanswered when the server closed the connection returned %s, its answer (given after the reconnection) was %s", c.Value, w)
 		}
 		if c.Tag == 7 && c.Value != "vecint:[7 8 9]" {
 			return "violation", fmt.Errorf("the initial call returned %s", c.Value)
@@ -394,6 +423,13 @@ func TestC16(t *testing.T) {
 					variants = append(variants, Event{Arg: int64(a)<<8 | 0<<2}, Event{Arg: int64(a)<<8 | 1<<2})
 				}
 			}
+			if k == "close-pending" {
+				// kind of the unanswered request x number of further closes before its answer, plain / gzip / in a container
+				variants = nil
+				for a := 0; a < 9; a++ {
+					variants = append(variants, Event{Arg: int64(a%3)<<2 | int64(a/3)<<4, Gzip: a%4 == 1, InContainer: a%4 == 2})
+				}
+			}
 			for _, variant := range variants {
 				idx++
 				if idx%nsh != run.Shard {
@@ -411,7 +447,7 @@ func TestC16(t *testing.T) {
 				if k == "empty-body" || k == "truncated" || k == "raw-soup" || k == "gzip-damaged" || strings.HasPrefix(k, "envelope:") {
 					ev.Gzip = false
 				}
-				if k == "envelope:badlen" {
+				if k == "envelope:badlen" || k == "close-pending" {
 					ev.Arg = variant.Arg
 				}
 				if k == "raw-soup" {
